@@ -109,8 +109,17 @@ func dataMsg(n int) []byte {
 	return dat(fmt.Sprintf(`{"data":[{"header":[{"protocolId":"ee1.0"}]},{"payload":{"datagram":[{"n":%d}]}}]}`, n))
 }
 
+// SPINE payloads are the application's: any JSON, also one that uses the words of SHIP messages
+var shipWords = []string{"connectionClose", "connectionHello", "messageProtocolHandshake", "messageProtocolHandshakeError", "connectionPinState", "accessMethods", "accessMethodsRequest", "data", "header", "payload"}
+
 func dataVariant(r *vh.Rng, n int) []byte {
-	switch r.Intn(8) {
+	switch r.Intn(11) {
+	case 8:
+		return dat(fmt.Sprintf(`{"data":[{"header":[{"protocolId":"ee1.0"}]},{"payload":{"datagram":[{"n":%d},{"%s":[{"phase":"announce"}]}]}}]}`, n, vh.Pick(r, shipWords)))
+	case 9:
+		return dat(fmt.Sprintf(`{"data":[{"header":[{"protocolId":"ee1.0"}]},{"payload":{"datagram":[{"n":%d},{"note":"%s"}]}}]}`, n, vh.Pick(r, shipWords)))
+	case 10:
+		return dat(fmt.Sprintf(`{"data":[{"header":[{"protocolId":"ee1.0"}]},{"payload":{"datagram":[{"n":%d},{"note":"a \"%s\" in quotes"}]}}]}`, n, vh.Pick(r, shipWords)))
 	case 0:
 		return dat(`{"data":[{"header":[{"protocolId":"ee1.0"}]}]}`) // no payload
 	case 1:
